@@ -25,6 +25,8 @@ CMPOPS = {ast.Eq: '==', ast.NotEq: '!=', ast.Lt: '<', ast.LtE: '<=',
 FLIPPED = {'<': '>', '<=': '>=', '>': '<', '>=': '<=', '==': '==', '!=': '!='}
 ALIASES = {'np': 'numpy', 'xr': 'xarray', 'sp': 'scipy', 'ne': 'numexpr'}
 MAX_UNROLL = 24
+# attributes that expose the elements of an array
+CONTENT_ATTRS = frozenset(('values', 'data', 'T', 'real', 'imag'))
 
 
 def norm_cmp(o, left, right):
@@ -1051,6 +1053,10 @@ class Interp:
                 continue
             if root[2] == 'attr' and root[3] == name:
                 return root[4]
+            if root[2] == 'item' and name in CONTENT_ATTRS:
+                # x[k] = v changes what x.values / x.T / ... hold: keep the
+                # stores in the receiver
+                return ('attr', base, name)
             root = root[1]
         k = root[0]
         if k == 'modref':
